@@ -102,3 +102,26 @@ def catalogue_case(rng, name):
         theta[4] = min(theta[4], 0.95)
         theta[7] = min(theta[7], 0.99)
     return theta, list(x0), horizon * rng.choice([0.5, 1.0])
+
+
+def gen_additive(rng, max_states=3, max_params=3):
+    """f = g(x) + B.theta: parameters enter additively only, so d2f/dx dtheta = 0 and d2f/dtheta2 = 0 (the stratum on which
+    pygom's second-order sensitivities must be exact).  g is dissipative, B.theta >= 0, so solutions stay bounded."""
+    nS, nP = rng.randint(1, max_states), rng.randint(1, max_params)
+    states = rng.sample(G.STATE_POOL, nS)
+    params = rng.sample(G.PARAM_POOL, nP)
+    odes = []
+    used = set()
+    for i, s in enumerate(states):
+        s2 = rng.choice(states)
+        g = rng.choice(["-0.4*%s - 0.05*%s**3" % (s, s), "-0.3*%s - 0.1*%s*%s*%s/(1+%s*%s)" % (s, s, s2, s2, s2, s2),
+                        "-0.5*%s*%s/(1+%s) - 0.2*%s" % (s, s, s, s), "-0.2*%s**2 + 0.3*%s/(1+%s*%s)" % (s, s2, s2, s2)])
+        k = rng.randint(1, min(2, nP))
+        ps = rng.sample(params, k)
+        if i == nS - 1:
+            ps = list(dict.fromkeys(ps + [p for p in params if p not in used]))
+        used.update(ps)
+        lin = " + ".join("%s*%s" % (rng.choice(["0.5", "1", "2"]), p) for p in ps)
+        odes.append([s, g + " + " + lin])
+    return {"states": states, "state_decl": "list", "params": params, "param_decl": "list", "derived": [], "events": [],
+            "odes": odes, "limits": None}
